@@ -1,5 +1,5 @@
 /-
-  C04 — counting lemmas for association lists with unique keys (needed because `J.pyEq` on
+  C04 — counting lemmas for association lists with unique keys (needed because `same` on
   objects is "same length and every binding of the left is matched on the right").
 -/
 import Kopf.Lemmas.C04_Assoc
